@@ -354,7 +354,7 @@ def corpus_cases():
     return out
 
 
-def small_exhaustive_cases():
+def small_exhaustive_cases(known=()):
     """every order token against every small chain shape, one block, one two-residue link"""
     cases = []
     block = dict(name="A", nrexcl=1, syntax="ff", atoms=[dict(name="BB", atype="P1", cg=1), dict(name="SC1", atype="P2", cg=1)],
@@ -365,6 +365,12 @@ def small_exhaustive_cases():
                         ixns=[["bonds", ["BB", prefix + "BB"], ["1", "0.4", "200"], {}]], edges=[], nonedges=[], patterns=[])
             graph = dict(nodes=[[i, resids[i], "A"] for i in range(3)], edges=[[0, 1, None], [1, 2, None]])
             cases.append(dict(blocks=[copy.deepcopy(block)], links=[link], graph=graph))
+    if "link-without-resname-skipped" in known:
+        # the listed finding, deterministically: a next-residue link none of whose atoms names a residue
+        link = dict(atoms=[["SC1", {}], ["+BB", {}]], ixns=[["bonds", ["SC1", "+BB"], ["1", "0.4", "200"], {}]],
+                    edges=[], nonedges=[], patterns=[])
+        graph = dict(nodes=[[i, i + 1, "A"] for i in range(3)], edges=[[0, 1, None], [1, 2, None]])
+        cases.append(dict(blocks=[copy.deepcopy(block)], links=[link], graph=graph, allow_no_resname=True))
     return cases
 
 
@@ -389,7 +395,7 @@ def run(ctx):
     known = known_shapes_for("C02")
     run_match_order(ctx)
     rng = ctx.rng
-    cases = corpus_cases() + small_exhaustive_cases()
+    cases = corpus_cases() + small_exhaustive_cases(known)
     count = ctx.budget(500, 6000)
     max_res = ctx.budget(7, 10)
     for _ in range(count):
